@@ -1,23 +1,23 @@
 #!/bin/sh
 # tools/seedrun.sh <patch.diff> <id> [<id>...]
-# Applies a seeded change to /repo, runs the quick checks of the given properties, reverts.
+# Applies a seeded change to a scratch copy of /repo (never /repo itself), checks that it
+# builds and that the existing suite still passes there, runs the quick checks of the given
+# properties against the copy (VERIF_REPO) and removes the copy.
 patch="$1"; shift
-cd /repo || exit 2
-if [ -n "$(git status --porcelain)" ]; then echo "seedrun: /repo is dirty"; exit 2; fi
-if ! git apply "$patch" 2>/dev/null; then
-  if ! git apply -3 "$patch" 2>/dev/null; then echo "seedrun: patch does not apply: $patch"; git checkout -- . ; exit 3; fi
-  git reset -q
-fi
-trap 'cd /repo && git checkout -- . && git clean -fdq' EXIT INT TERM
 export GOFLAGS=-mod=mod GOPROXY=off GOSUMDB=off GOTOOLCHAIN=local
-if ! go build ./... 2>/tmp/seedrun-build.log; then echo "seedrun: does not compile"; cat /tmp/seedrun-build.log; exit 3; fi
+scratch=/var/tmp/seedrun-$$
+rm -rf "$scratch"; mkdir -p "$scratch"
+trap 'rm -rf "$scratch"; rm -f /verif/.build/alt-*.mod /verif/.build/alt-*.sum /verif/.build/props-*.test' EXIT INT TERM
+rsync -a --exclude .git /repo/ "$scratch"/
+if ! (cd "$scratch" && patch -p1 -s --no-backup-if-mismatch < "$patch" >/dev/null 2>&1); then echo "seedrun: patch does not apply: $patch"; exit 3; fi
+if ! (cd "$scratch" && go build ./... 2>/tmp/seedrun-build.log); then echo "seedrun: does not compile"; cat /tmp/seedrun-build.log; exit 3; fi
 if [ -z "$SEEDRUN_SKIP_TESTS" ]; then
-  if ! go test -vet=off -count=1 ./... >/tmp/seedrun-test.log 2>&1; then echo "seedrun: existing tests FAIL with this change"; tail -5 /tmp/seedrun-test.log; fi
+  if ! (cd "$scratch" && go test -vet=off -count=1 ./... >/tmp/seedrun-test.log 2>&1); then echo "seedrun: existing tests FAIL with this change"; tail -5 /tmp/seedrun-test.log; fi
 fi
 cd /verif
 for id in "$@"; do
   start=$(date +%s)
-  out=$(./check "$id" ${SEEDRUN_TIER:-quick} 2>&1); code=$?
+  out=$(VERIF_REPO="$scratch" ./check "$id" ${SEEDRUN_TIER:-quick} 2>&1); code=$?
   end=$(date +%s)
   echo "== $(basename $(dirname $patch))/$(basename $patch) vs $id: exit=$code in $((end-start))s"
   echo "$out" | grep -E "VIOLATION|REPLAY-VIOLATION|failed after|data race|DATA RACE" | cut -c1-400 | head -4
